@@ -135,9 +135,12 @@ fn files_lane(ctx: &mut Ctx, _idx: u64) {
             token: format!("holder{}", i),
         });
     }
-    // stand-alone licences (with text), possibly several of one name
+    // stand-alone licences (mostly with text; a name-only paragraph is still the first paragraph of that name),
+    // possibly several of one name
     let ns = r.below(4);
-    let standalone: Vec<(String, Vec<String>)> = (0..ns).map(|i| (r.pick_s(&LICENSES).to_string(), vec![format!("standalone text {}", i), ".".to_string(), "end".to_string()])).collect();
+    let standalone: Vec<(String, Vec<String>)> = (0..ns)
+        .map(|i| (r.pick_s(&LICENSES).to_string(), if r.chance(1, 6) { vec![] } else { vec![format!("standalone text {}", i), ".".to_string(), "end".to_string()] }))
+        .collect();
     // write the file: header, then Files and License paragraphs in any order
     enum P {
         F(usize),
@@ -225,7 +228,7 @@ fn files_lane(ctx: &mut Ctx, _idx: u64) {
             let f = &model_files[i];
             match &f.license_text {
                 Some(t) => Some(License::Named(f.license_name.clone(), t.join("\n"))),
-                None => model_lic.iter().find(|(n, _)| *n == f.license_name).map(|(n, t)| License::Named(n.clone(), t.join("\n"))),
+                None => model_lic.iter().find(|(n, _)| *n == f.license_name).map(|(n, t)| if t.is_empty() { License::Name(n.clone()) } else { License::Named(n.clone(), t.join("\n")) }),
             }
         });
         let got = guard(256, || {
@@ -261,6 +264,9 @@ fn files_lane(ctx: &mut Ctx, _idx: u64) {
                     return;
                 }
                 ctx.count(if want.is_some() { "lookup:found" } else { "lookup:none" });
+                if matches!(want_license, Some(License::Name(_))) {
+                    ctx.count("lookup:resolved-to-name-only-paragraph");
+                }
             }
         }
     }
